@@ -439,7 +439,8 @@ func c20R3(p *core.Program, r *core.Report) bool {
 	}
 	info := initf.Info()
 	// the pattern assigned (through a local) to field compiledIrregular
-	var format string
+	var format string // the pattern's constant text, \x00 where the word alternation goes
+	var nops int
 	var fpos token.Pos
 	found := false
 	ast.Inspect(initf.Body, func(n ast.Node) bool {
@@ -454,37 +455,33 @@ func c20R3(p *core.Program, r *core.Report) bool {
 		if call == nil {
 			return true
 		}
-		// argument: reString, defined by the Sprintf preceding this statement
+		// argument: the pattern text itself, or a local holding it (its last assignment before this statement);
+		// Sprintf with a constant format and `+` concatenation are the same template
 		arg := call.Args[0]
-		var sp *ast.CallExpr
-		if c := core.AsCall(info, arg, "fmt.Sprintf"); c != nil {
-			sp = c
-		} else if v := core.VarOf(info, arg); v != nil {
-			// last assignment to v before this statement in source order
+		src := arg
+		if v := core.VarOf(info, arg); v != nil {
+			src = nil
 			for _, d := range core.DefsOf(info, initf.Body, v) {
-				if d.Stmt.Pos() < as.Pos() && d.Rhs != nil {
-					if c := core.AsCall(info, d.Rhs, "fmt.Sprintf"); c != nil {
-						sp = c
-					} else {
-						sp = nil
-					}
+				if d.Stmt.Pos() < as.Pos() && d.Rhs != nil && d.Index < 0 {
+					src = d.Rhs
 				}
 			}
 		}
-		if sp != nil {
-			if s, isC := core.ConstString(info, sp.Args[0]); isC {
-				format, fpos, found = s, sp.Pos(), true
+		if src != nil {
+			if t, isT := exprTemplate(info, src); isT && len(t.Ops) >= 1 {
+				format, nops, fpos, found = t.Text, len(t.Ops), src.Pos(), true
 			}
 		}
 		return true
 	})
 	if !found {
-		r.Anchor(rule, "constant format of the irregular pattern compiled into Rule.compiledIrregular")
+		r.Anchor(rule, "constant text of the irregular pattern compiled into Rule.compiledIrregular")
 		return false
 	}
-	pat := strings.Replace(format, "%s", "worda|wordb", 1)
+	pat := strings.Replace(format, "\x00", "worda|wordb", 1)
+	format = strings.ReplaceAll(format, "\x00", "<words>")
 	shapeOK, why := irregularShape(pat)
-	if !r.Check(shapeOK && strings.Count(format, "%s") == 1, rule, initf, "shape of the irregular pattern", fpos,
+	if !r.Check(shapeOK && nops == 1, rule, initf, "shape of the irregular pattern", fpos,
 		"two capture groups, first `.*`, word boundary, alternation of words, end anchor, case-insensitive", "irregular pattern `"+format+"`: "+why) {
 		ok = false
 	}
